@@ -8,6 +8,7 @@ import (
 	"os"
 	"os/exec"
 	"path/filepath"
+	"regexp"
 	"strings"
 
 	simrt "verif.local/simrt"
@@ -614,7 +615,16 @@ func (c *c03) check(cs *Case, record bool) *Case {
 			if what != "message" && what != "verdict" && what != "index" && what != "line" && what != "quote" {
 				detail += fmt.Sprintf("\n reference json: %s\n other json    : %s", trunc(ref.JSON, 300), trunc(got.JSON, 300))
 			}
-			v := violation(cs, "nondeterminism", diffShape(what)+"@"+seam, detail)
+			sig := diffShape(what) + "@" + seam
+			if diffShape(what) == "json:schema/example" && seam != "fresh-process" && sharedRegexType(p) {
+				// The listed finding: the example generator of a regex TYPE is stateful inside the schema
+				// dependency, and a regex type referenced from several places is visited in an order (map
+				// ranges, a pooled loader) that is not the document's. Which seam shows it varies; the
+				// class of documents does not.
+				sig = "json:schema/example@regex-type-referenced-more-than-once"
+				detail += "\n (the document has a regex TYPE that is referenced from two or more places; seam(s) that showed it here: " + seam + ")"
+			}
+			v := violation(cs, "nondeterminism", sig, detail)
 			pack(v, a, dec)
 			return v
 		}
@@ -644,6 +654,16 @@ func (c *c03) attribute(cs *Case, a *altEnv, ref *Result, what string) string {
 		if got, _ := c.runAlt(cs, &b, nil); got.Panic == "" {
 			if same, _ := ref.Same(&got); !same {
 				return "input-buffer-reuse"
+			}
+		}
+	}
+	if a.Env.ReuseInput && cs.Opts.Entry == "file" && (a.Env.PoolPolicy != refEnv.PoolPolicy || a.Env.PoolDrop != 0) {
+		// the project processed twice in a row and what the pools hand out the second time
+		b := altEnv{Env: refEnv}
+		b.Env.ReuseInput, b.Env.PoolPolicy, b.Env.PoolDrop = true, a.Env.PoolPolicy, a.Env.PoolDrop
+		if got, _ := c.runAlt(cs, &b, nil); got.Panic == "" {
+			if same, _ := ref.Same(&got); !same {
+				return "pool+same-project-twice"
 			}
 		}
 	}
@@ -819,4 +839,35 @@ func editedCopy(p *Project, r *rng) Project {
 		q.set(path, b)
 	}
 	return q
+}
+
+var reRegexType = regexp.MustCompile(`(?m)^[ \t]*TYPE[ \t]+(@[A-Za-z0-9_]+)[ \t]+regex\b`)
+
+// sharedRegexType: does the project declare a regex TYPE whose name occurs at two or more other places?
+func sharedRegexType(p *Project) bool {
+	var all strings.Builder
+	for _, f := range sortedKeys(p.Files) {
+		all.Write(p.content(f))
+		all.WriteByte('\n')
+	}
+	txt := all.String()
+	for _, m := range reRegexType.FindAllStringSubmatch(txt, -1) {
+		name := m[1]
+		n := 0
+		for i := 0; ; {
+			k := strings.Index(txt[i:], name)
+			if k < 0 {
+				break
+			}
+			end := i + k + len(name)
+			if end >= len(txt) || !(txt[end] == '_' || (txt[end] >= '0' && txt[end] <= '9') || (txt[end] >= 'a' && txt[end] <= 'z') || (txt[end] >= 'A' && txt[end] <= 'Z')) {
+				n++
+			}
+			i = end
+		}
+		if n >= 3 { // the declaration itself and two uses
+			return true
+		}
+	}
+	return false
 }
